@@ -170,7 +170,10 @@ def match_known(kf, prop, case, info):
         if e["property"] != prop:
             continue
         m = e["match"]
-        if not fnmatch.fnmatch(case["id"], m.get("case", "*")):
+        globs = m.get("case", "*")
+        if isinstance(globs, str):
+            globs = [globs]
+        if not any(fnmatch.fnmatch(case["id"], g) for g in globs):
             continue
         if m.get("kind", "any") not in ("any", info.get("kind")):
             continue
